@@ -2,6 +2,8 @@ SPECIFICATION GSpec
 CONSTANTS
   Wells <- GWells
   InputOrder <- GInput
+  FreeOrder <- GFree
+  FreeCells <- GFreeCells
   NK = 5
   MaxOps = 9
   MaxSteps = 4
